@@ -110,6 +110,34 @@ let parse_oracle toks =
             | [] -> failwith "short tables")
        | [] -> failwith "short tables")
 
+(* filter trees (Model.WhereExprTree), prefix notation:
+     a f:<hex> | a n:<dec> | a s:<hex> | a t | a F | a 0        atoms (field, number, string, true, false, null)
+     A <atom>                 BAtom
+     C <lt|le|gt|ge|eq|ne> <atom> <atom>
+     N <tree>     & <tree> <tree>     | <tree> <tree> *)
+let parse_atom toks =
+  match toks with
+  | "a" :: t :: r ->
+      let a =
+        if t = "t" then ABool true else if t = "F" then ABool false else if t = "0" then ANull
+        else match t.[0] with
+          | 'f' -> AField (bytes_of_hex (sub_from t 2))
+          | 'n' -> ANum (z_of_string (sub_from t 2))
+          | 's' -> AStr (bytes_of_hex (sub_from t 2))
+          | _ -> failwith "bad atom" in
+      (a, r)
+  | _ -> failwith "bad atom"
+let cmp_of s = match s with
+  | "lt" -> CLt | "le" -> CLe | "gt" -> CGt | "ge" -> CGe | "eq" -> CEq | "ne" -> CNe | _ -> failwith "bad cmp"
+let rec parse_tree toks =
+  match toks with
+  | "A" :: r -> let (a, r) = parse_atom r in (BAtom a, r)
+  | "C" :: op :: r -> let (a, r) = parse_atom r in let (b, r) = parse_atom r in (BCmp (cmp_of op, a, b), r)
+  | "N" :: r -> let (x, r) = parse_tree r in (BNot x, r)
+  | "&" :: r -> let (x, r) = parse_tree r in let (y, r) = parse_tree r in (BAnd (x, y), r)
+  | "|" :: r -> let (x, r) = parse_tree r in let (y, r) = parse_tree r in (BOr (x, y), r)
+  | _ -> failwith "bad tree"
+
 let show_opt_group r = match r with
   | Ok g -> "ok " ^ hex_of_bytes g | Err e -> "err " ^ show_err e | Panic -> "panic" | NoFuel -> "nofuel" | Outside -> "outside"
 
@@ -144,6 +172,16 @@ let handle (toks : string list) : string =
            show_res (fun ids -> Stdlib.String.concat " " (string_of_int (Stdlib.List.length ids) :: Stdlib.List.map hex_of_bytes ids))
              (scan_expr_ids orc mt (d = "1") os cs)
        | [] -> failwith "short scan")
+  | "tree_print" :: rest ->
+      (* tree_print <tree> -> <wf 1|0> <text hex> *)
+      let (t, _) = parse_tree rest in
+      bool_str (wf t) ^ " " ^ hex_of_bytes (print t)
+  | "tree_match" :: rest ->
+      (* tree_match <tree> <object> [tables] -> den_match: ok 1|0 | ... *)
+      let (t, rest) = parse_tree rest in
+      let (o, rest) = parse_sobj rest in
+      let (orc, mt, _) = parse_oracle rest in
+      show_res bool_str (den_match orc (to_eobj orc (mt o.so_id) o) t)
   | ["read_group"; d] -> show_opt_group (read_group (bytes_of_hex d))
   | ["parse_string"; d] ->
       (match parse_string (bytes_of_hex d) with
